@@ -712,3 +712,450 @@ pub fn c04(case: &Case, out: &Outcome) -> Verdict {
         _ => Verdict::Skip("no output"),
     }
 }
+
+// ------------------------------------------------------------------------------------------
+// C08: ignore directives
+
+/// number of T elements contributed by the tokens that start before `offset`
+fn t_count_before(src: &str, toks: &[Tok], offset: usize) -> usize {
+    let mut n = 0;
+    for t in toks {
+        if t.start >= offset {
+            break;
+        }
+        if t.kind.is_trivia() {
+            continue;
+        }
+        match (t.kind, t.text(src)) {
+            (Kind::Sym, "(") | (Kind::Sym, ")") | (Kind::Sym, ",") | (Kind::Sym, ";") => {}
+            (Kind::Sym, ">>") => n += 2,
+            _ => n += 1,
+        }
+    }
+    n
+}
+
+fn neutralise_directives(src: &str) -> String {
+    src.replace("stylua: ignore", "stylua- ignore")
+}
+
+/// spans (first token .. last token) of the top-level statements of a program
+fn top_level_statements(src: &str, syn: Syntax) -> Option<Vec<(usize, usize)>> {
+    let ast = ast_json(src, syn)?;
+    let mut out = Vec::new();
+    for pair in ast.get("stmts")?.as_array()? {
+        out.push(crate::model::span(&pair[0])?);
+    }
+    if let Some(ls) = ast.get("last_stmt").filter(|l| !l.is_null()) {
+        out.push(crate::model::span(&ls[0])?);
+    }
+    Some(out)
+}
+
+pub fn c08(case: &Case, out: &Outcome) -> Verdict {
+    let syn = case.cfg.syntax;
+    if case.range.is_some() {
+        return Verdict::Skip("range given");
+    }
+    if case.cfg.sort_requires {
+        return Verdict::Skip("sort_requires on");
+    }
+    let q = match out {
+        Outcome::Ok(q) => q,
+        Outcome::ParseError(_) => return Verdict::Skip("input does not parse"),
+        _ => return Verdict::Skip("no output"),
+    };
+    if !has_ignore_directive(&case.source) {
+        return Verdict::Skip("no ignore directive");
+    }
+    let Some(ast) = ast_json(&case.source, syn) else { return Verdict::Skip("input does not parse") };
+    let mut ignored = Vec::new();
+    crate::model::ignored_nodes(&ast, &mut ignored);
+    if ignored.is_empty() {
+        return Verdict::Skip("directive present but no node is ignored");
+    }
+    ignored.sort_by_key(|n| n.start);
+    let ti = match lex_ok(&case.source, syn) {
+        Ok(t) => t,
+        Err(_) => return Verdict::Skip("checker lexer rejects input"),
+    };
+    let to = match lex_ok(q, syn) {
+        Ok(t) => t,
+        Err(e) => return Verdict::Fail(format!("output does not lex: {e}")),
+    };
+    // first half: every ignored node occurs verbatim, in order, at the corresponding token position
+    let mut from = 0usize;
+    for n in &ignored {
+        let text = &case.source[n.start..n.end];
+        let want = t_count_before(&case.source, &ti, n.start);
+        let mut found = None;
+        let mut search = from;
+        while let Some(p) = q[search..].find(text) {
+            let at = search + p;
+            if t_count_before(q, &to, at) == want {
+                found = Some(at);
+                break;
+            }
+            search = at + 1;
+            while !q.is_char_boundary(search) {
+                search += 1;
+            }
+        }
+        match found {
+            Some(at) => from = at + text.len(),
+            None => {
+                return Verdict::Fail(format!("ignored {} is not reproduced verbatim: `{}`", n.kind, short(text, 120)));
+            }
+        }
+    }
+    // second half: statements away from ignored nodes are formatted exactly as without the directives
+    let neutral = Case { source: neutralise_directives(&case.source), ..case.clone() };
+    let mut nontrivial = false;
+    if let Outcome::Ok(qn) = run_format(&neutral).0 {
+        for n in &ignored {
+            if !qn.contains(&case.source[n.start..n.end]) {
+                nontrivial = true;
+            }
+        }
+        let tops_in = top_level_statements(&case.source, syn);
+        let tops_a = top_level_statements(q, syn);
+        let tops_b = top_level_statements(&qn, syn);
+        if let (Some(ti_), Some(ta), Some(tb)) = (tops_in, tops_a, tops_b) {
+            if ti_.len() == ta.len() && ta.len() == tb.len() {
+                let touches = |i: usize| -> bool {
+                    let (s, e) = ti_[i];
+                    ignored.iter().any(|n| n.start < e && n.end > s)
+                };
+                for i in 0..ti_.len() {
+                    let prev_ok = i == 0 || !touches(i - 1);
+                    let next_ok = i + 1 >= ti_.len() || !touches(i + 1);
+                    if !touches(i) && prev_ok && next_ok {
+                        let a = &q[ta[i].0..ta[i].1];
+                        let b = qn[tb[i].0..tb[i].1].replace("stylua- ignore", "stylua: ignore");
+                        if a != b {
+                            return Verdict::Fail(format!("statement {} is not ignored but is formatted differently than without the directives: `{}` vs `{}`", i, short(a, 80), short(&b, 80)));
+                        }
+                    }
+                }
+            }
+        }
+    }
+    Verdict::Pass { nontrivial }
+}
+
+// ------------------------------------------------------------------------------------------
+// C09: range formatting
+
+#[derive(Clone, Copy, PartialEq, Eq, Debug)]
+enum InRange {
+    Inside,
+    Outside,
+    /// the statement ends exactly one byte after the end bound: the README's inclusive wording and the
+    /// implementation's comparison disagree, so no claim is made either way
+    Boundary,
+}
+
+/// `tail_start`: start offset of the sixth-last code token of the statement
+fn classify(st: &crate::model::StmtSpan, tail_start: usize, s: Option<usize>, e: Option<usize>) -> InRange {
+    if let Some(s) = s {
+        if st.start < s {
+            return InRange::Outside;
+        }
+    }
+    if let Some(e) = e {
+        if st.end == e + 1 {
+            return InRange::Boundary;
+        }
+        if st.end > e + 1 {
+            // The implementation compares full_moon's `end_position()` of the statement node, which for some node
+            // kinds (index brackets, typed locals without value, parenthesised types) is the end of an earlier
+            // token than the textual last one (known finding KF-C09-node-end-position): a cut inside the last six
+            // tokens of a statement is therefore left unclaimed.
+            if e + 1 > tail_start {
+                return InRange::Boundary;
+            }
+            return InRange::Outside;
+        }
+    }
+    InRange::Inside
+}
+
+/// (start, end) offsets in `text` of the tokens carrying T indices a..b (b exclusive)
+fn t_slice(text: &str, toks: &[Tok], a: usize, b: usize) -> Option<(usize, usize)> {
+    let mut idx = 0usize;
+    let mut start = None;
+    let mut end = None;
+    for t in toks {
+        if t.kind.is_trivia() {
+            continue;
+        }
+        let n = match (t.kind, t.text(text)) {
+            (Kind::Sym, "(") | (Kind::Sym, ")") | (Kind::Sym, ",") | (Kind::Sym, ";") => 0,
+            (Kind::Sym, ">>") => 2,
+            _ => 1,
+        };
+        if n == 0 {
+            continue;
+        }
+        if idx >= a && start.is_none() {
+            start = Some(t.start);
+        }
+        if idx < b {
+            end = Some(t.end);
+        }
+        idx += n;
+        if idx >= b {
+            break;
+        }
+    }
+    match (start, end) {
+        (Some(s), Some(e)) if s <= e => Some((s, e)),
+        _ => None,
+    }
+}
+
+pub fn c09(case: &Case, out: &Outcome) -> Verdict {
+    let syn = case.cfg.syntax;
+    let Some((rs, re)) = case.range else { return Verdict::Skip("no range") };
+    if has_ignore_directive(&case.source) {
+        return Verdict::Skip("ignore directive present");
+    }
+    let q = match out {
+        Outcome::Ok(q) => q,
+        Outcome::ParseError(_) => return Verdict::Skip("input does not parse"),
+        _ => return Verdict::Skip("no output"),
+    };
+    let src = &case.source;
+    let Some(ast) = ast_json(src, syn) else { return Verdict::Skip("input does not parse") };
+    let mut stmts = Vec::new();
+    crate::model::all_statements(&ast, 0, &mut stmts);
+    let ti = match lex_ok(src, syn) {
+        Ok(t) => t,
+        Err(_) => return Verdict::Skip("checker lexer rejects input"),
+    };
+    let to = match lex_ok(q, syn) {
+        Ok(t) => t,
+        Err(e) => return Verdict::Fail(format!("output does not lex: {e}")),
+    };
+    let code_all: Vec<&Tok> = ti.iter().filter(|t| !t.kind.is_trivia()).collect();
+    let classes: Vec<InRange> = stmts
+        .iter()
+        .map(|s| {
+            let own: Vec<&&Tok> = code_all.iter().filter(|t| t.start >= s.start && t.end <= s.end).collect();
+            let tail_start = if own.len() > 6 { own[own.len() - 6].start } else { s.start };
+            classify(s, tail_start, rs, re)
+        })
+        .collect();
+    let touched: Vec<&crate::model::StmtSpan> = stmts.iter().zip(classes.iter()).filter(|(_, c)| **c != InRange::Outside).map(|(s, _)| s).collect();
+    let code: Vec<&Tok> = ti.iter().filter(|t| !t.kind.is_trivia()).collect();
+    // (4) nothing inside: the text up to the last token is unchanged
+    if touched.is_empty() {
+        let last_end = code.last().map_or(0, |t| t.end);
+        if !q.starts_with(&src[..last_end]) {
+            let (a, b) = first_line_diff(&src[..last_end], q);
+            return Verdict::Fail(format!("no statement lies inside the range but the text changed: `{}` became `{}`", short(&a, 80), short(&b, 80)));
+        }
+        return Verdict::Pass { nontrivial: false };
+    }
+    // (1) bytes before the first and after the last affected statement
+    let first = touched.iter().map(|s| s.start).min().unwrap();
+    let last = touched.iter().map(|s| s.end_semi).max().unwrap();
+    let prev_end = code.iter().filter(|t| t.end <= first).map(|t| t.end).max().unwrap_or(0);
+    if !q.starts_with(&src[..prev_end]) {
+        let (a, b) = first_line_diff(&src[..prev_end], q);
+        return Verdict::Fail(format!("text before the first statement in the range changed: `{}` became `{}`", short(&a, 80), short(&b, 80)));
+    }
+    if let Some(next_start) = code.iter().filter(|t| t.start >= last).map(|t| t.start).min() {
+        if !q.ends_with(&src[next_start..]) {
+            // the EOF trivia may be formatted when the EOF token lies inside the range: compare up to the last token
+            let last_tok_end = code.last().map_or(src.len(), |t| t.end);
+            let tail = &src[next_start..last_tok_end];
+            if !q.contains(tail) {
+                return Verdict::Fail(format!("text after the last statement in the range changed: `{}` is not in the output", short(tail, 100)));
+            }
+        }
+    }
+    // (2) every statement outside the range keeps its text (piecewise around affected descendants)
+    let mut from = 0usize;
+    for (st, cl) in stmts.iter().zip(classes.iter()) {
+        if *cl != InRange::Outside {
+            continue;
+        }
+        // statements nested in an affected statement are formatted with it
+        if touched.iter().any(|t| t.start <= st.start && st.end_semi <= t.end_semi) {
+            continue;
+        }
+        // cut out affected descendants
+        let mut holes: Vec<(usize, usize)> = touched.iter().filter(|t| st.start <= t.start && t.end_semi <= st.end_semi).map(|t| (t.start, t.end_semi)).collect();
+        holes.sort();
+        let mut pieces: Vec<(usize, usize)> = Vec::new();
+        let mut cur = st.start;
+        for (hs, he) in holes {
+            if hs > cur {
+                pieces.push((cur, hs));
+            }
+            cur = cur.max(he);
+        }
+        if cur < st.end_semi {
+            pieces.push((cur, st.end_semi));
+        }
+        let mut local_from = from.min(q.len());
+        for (ps, pe) in pieces {
+            // pieces are delimited by code tokens: the trivia next to an affected statement belongs to it
+            let toks_in: Vec<&&Tok> = code.iter().filter(|t| t.start >= ps && t.end <= pe).collect();
+            let (Some(ft), Some(lt)) = (toks_in.first(), toks_in.last()) else { continue };
+            let piece = &src[ft.start..lt.end];
+            let piece_start = ft.start;
+            let want = t_count_before(src, &ti, piece_start);
+            let mut found = None;
+            let mut search = local_from;
+            while let Some(p) = q[search..].find(piece) {
+                let at = search + p;
+                if t_count_before(q, &to, at) == want {
+                    found = Some(at);
+                    break;
+                }
+                search = at + 1;
+                while search < q.len() && !q.is_char_boundary(search) {
+                    search += 1;
+                }
+                if search >= q.len() {
+                    break;
+                }
+            }
+            match found {
+                Some(at) => local_from = at + piece.len(),
+                None => return Verdict::Fail(format!("statement outside the range does not keep its text: `{}`", short(piece, 120))),
+            }
+        }
+        // nested outside statements repeat parts of this text: do not advance the global cursor past this statement's start
+        let _ = &mut from;
+    }
+    // (3) statements inside the range come out as in a whole-file run
+    let full_case = Case { range: None, ..case.clone() };
+    let mut compared = false;
+    if case.cfg.sort_requires {
+        // sorted requires move inside the range: the whole-file comparison is C12's subject
+    } else if let Outcome::Ok(full) = run_format(&full_case).0 {
+        // only when the width leaves a margin of six indentation levels over the longest line, so that a different
+        // indentation of the enclosing statements cannot change a wrapping decision
+        let longest = full.lines().map(|l| l.chars().map(|c| if c == '\t' { case.cfg.indent_width } else { 1 }).sum::<usize>()).max().unwrap_or(0);
+        let roomy = case.cfg.column_width >= longest.saturating_add(6 * case.cfg.indent_width);
+        if let (Ok(tf), true) = (lex_ok(&full, syn), roomy) {
+            let t_in = lex::t_sequence(src, &ti, syn);
+            if lex::t_sequence(q, &to, syn) == t_in && lex::t_sequence(&full, &tf, syn) == t_in {
+                for (st, cl) in stmts.iter().zip(classes.iter()) {
+                    if *cl != InRange::Inside || !st.direct {
+                        continue;
+                    }
+                    // outermost inside statements only
+                    if stmts.iter().zip(classes.iter()).any(|(o, oc)| *oc == InRange::Inside && (o.start < st.start || o.end > st.end) && o.start <= st.start && st.end <= o.end) {
+                        continue;
+                    }
+                    let a = t_count_before(src, &ti, st.start);
+                    let b = t_count_before(src, &ti, st.end);
+                    if b <= a {
+                        continue;
+                    }
+                    if let (Some((s1, e1)), Some((s2, e2))) = (t_slice(q, &to, a, b), t_slice(&full, &tf, a, b)) {
+                        compared = true;
+                        // the enclosing (unformatted) statements may sit at another indentation than in the whole-file
+                        // run (collapsed guards, hanging conditions): compare modulo the indentation of each line
+                        let strip = |t: &str| t.lines().map(|l| l.trim_start()).collect::<Vec<_>>().join("\n");
+                        if strip(&q[s1..e1]) != strip(&full[s2..e2]) {
+                            return Verdict::Fail(format!(
+                                "statement inside the range differs from whole-file formatting: `{}` vs `{}`",
+                                short(&q[s1..e1], 100),
+                                short(&full[s2..e2], 100)
+                            ));
+                        }
+                    }
+                }
+            }
+        }
+    }
+    let any_outside = classes.iter().any(|c| *c == InRange::Outside);
+    Verdict::Pass { nontrivial: (compared || case.cfg.sort_requires) && any_outside && q != src }
+}
+
+// ------------------------------------------------------------------------------------------
+// C12: require sorting
+
+pub fn c12(case: &Case, out: &Outcome) -> Verdict {
+    let syn = case.cfg.syntax;
+    let q = match out {
+        Outcome::Ok(q) => q,
+        Outcome::ParseError(_) => return Verdict::Skip("input does not parse"),
+        _ => return Verdict::Skip("no output"),
+    };
+    let src = &case.source;
+    if src.contains("stylua: ignore start") || src.contains("stylua: ignore end") {
+        return Verdict::Skip("KF-C12-ignore-region");
+    }
+    let Some(ast) = ast_json(src, syn) else { return Verdict::Skip("input does not parse") };
+    let tops = crate::model::top_statements(&ast);
+    let range = case.range;
+    let untouchable = |i: usize| -> bool {
+        if tops[i].ignored {
+            return true;
+        }
+        if let Some((s, e)) = range {
+            let (a, b) = tops[i].span;
+            if s.map_or(false, |s| a < s) || e.map_or(false, |e| b > e) {
+                return true;
+            }
+        }
+        false
+    };
+    let order: Vec<usize> = if case.cfg.sort_requires { crate::model::expected_order(&tops, &untouchable) } else { (0..tops.len()).collect() };
+    let ni = match guarded(|| norm::normal_form(src, syn)) {
+        Ok(Ok(n)) => n,
+        _ => return Verdict::Skip("input does not parse"),
+    };
+    let no = match guarded(|| norm::normal_form(q, syn)) {
+        Ok(Ok(n)) => n,
+        Ok(Err(e)) => return Verdict::Fail(format!("output does not parse: {}", short(&e, 160))),
+        Err(p) => return Verdict::Fail(format!("output does not parse: parser panicked {p}")),
+    };
+    let empty = Vec::new();
+    let si = ni.get("stmts").and_then(|s| s.as_array()).unwrap_or(&empty);
+    let so = no.get("stmts").and_then(|s| s.as_array()).unwrap_or(&empty);
+    if si.len() != so.len() || si.len() != tops.len() {
+        return Verdict::Fail(format!("{} top-level statements in the input, {} in the output", si.len(), so.len()));
+    }
+    for (pos, &from) in order.iter().enumerate() {
+        if si[from] != so[pos] {
+            let describe = |v: &serde_json::Value| short(&v.to_string(), 90);
+            return Verdict::Fail(format!(
+                "top-level statement {} of the output should be input statement {} ({}) but is {}",
+                pos,
+                from,
+                describe(&si[from]),
+                describe(&so[pos])
+            ));
+        }
+    }
+    if ni.get("last_stmt") != no.get("last_stmt") {
+        return Verdict::Fail("last statement changed".to_string());
+    }
+    // every comment stays in the file
+    let ti = match lex_ok(src, syn) {
+        Ok(t) => t,
+        Err(_) => return Verdict::Skip("checker lexer rejects input"),
+    };
+    let to = match lex_ok(q, syn) {
+        Ok(t) => t,
+        Err(e) => return Verdict::Fail(format!("output does not lex: {e}")),
+    };
+    let mut ci: Vec<String> = lex::comments(src, &ti).into_iter().map(|c| c.text).collect();
+    let mut co: Vec<String> = lex::comments(q, &to).into_iter().map(|c| c.text).collect();
+    ci.sort();
+    co.sort();
+    if ci != co {
+        let lost = ci.iter().find(|c| !co.contains(c)).cloned().unwrap_or_default();
+        return Verdict::Fail(format!("comments changed ({} in, {} out); e.g. `{}`", ci.len(), co.len(), short(&lost, 60)));
+    }
+    let moved = order.iter().enumerate().any(|(i, &f)| i != f);
+    let groups = tops.iter().filter(|t| t.kind.is_some()).count();
+    Verdict::Pass { nontrivial: groups >= 2 && (moved || !case.cfg.sort_requires) }
+}
